@@ -1018,3 +1018,55 @@ def _(I, ctx, v): return v
        're:^<(std::ffi::)?(OsStr|OsString) as AsRef<.*>>::as_ref$', 're:^(std::path::)?Path::new$', 're:^(std::path::)?Path::(to_path_buf|to_owned)$',
        're:^<(std::path::)?(Path|PathBuf) as (Partial)?Ord>::cmp_unused$')
 def _(I, ctx, r, *a): return r
+
+
+# ------------------------------------------------------------------ HashSet algebra
+from .models import _hs_insert as _hsi
+@model('re:^(std::collections::)?(Fnv)?HashSet::(union|intersection|difference|symmetric_difference)$')
+def _(I, ctx, a, b):
+    op = ctx.cur_key.rsplit('::', 1)[1]
+    A, B = deref(a), deref(b)
+    out = []
+    def inb(x, S): return S.find(I, ctx, x) is not None
+    if op == 'union':
+        out = [ValRef(x) for x in A.items] + [ValRef(y) for y in B.items if not inb(y, A)]
+    elif op == 'intersection': out = [ValRef(x) for x in A.items if inb(x, B)]
+    elif op == 'difference': out = [ValRef(x) for x in A.items if not inb(x, B)]
+    else: out = [ValRef(x) for x in A.items if not inb(x, B)] + [ValRef(y) for y in B.items if not inb(y, A)]
+    return ListIt(out)
+@model('re:^(std::collections::)?(Fnv)?HashSet::(is_subset|is_superset|is_disjoint)$')
+def _(I, ctx, a, b):
+    op = ctx.cur_key.rsplit('::', 1)[1]
+    A, B = deref(a), deref(b)
+    if op == 'is_superset': A, B = B, A
+    if op == 'is_disjoint': return not any(B.find(I, ctx, x) is not None for x in A.items)
+    return all(B.find(I, ctx, x) is not None for x in A.items)
+@model('re:^<(std::collections::)?(Fnv)?HashSet<.*> as FromIterator<.*>>::from_iter$')
+def _(I, ctx, it):
+    s = HSet()
+    for x in _drain(I, ctx, it): _hsi(I, ctx, ValRef(s), x)
+    return s
+@model('re:^(std::collections::)?(Fnv)?HashSet::(get|take)$')
+def _(I, ctx, s, k):
+    S = deref(s); i = S.find(I, ctx, deref(k))
+    if i is None: return NONE()
+    return SOME(ValRef(S.items[i])) if ctx.cur_key.endswith('get') else SOME(S.items.pop(i))
+
+
+@model('re:^([\\w:]+::)?(RwLockWriteGuard|RwLockReadGuard|MutexGuard)::map$')
+def _(I, ctx, g, f): return I.call_value(ctx, ctx.cur_crate, f, [g])
+@model('re:^([\\w:]+::)?(RwLockWriteGuard|RwLockUpgradableReadGuard)::(downgrade|upgrade|downgrade_to_upgradable)$')
+def _(I, ctx, g): return g
+@model('re:^<([\\w:]+::)?(MappedRwLockWriteGuard|MappedRwLockReadGuard|MappedMutexGuard)<.*> as Deref(Mut)?>::deref(_mut)?$')
+def _(I, ctx, r): return deref1(r)
+
+
+@model('re:^(std::option::)?Option::(iter|iter_mut)$')
+def _(I, ctx, o):
+    o0 = deref(o)
+    return ListIt([FieldRef(o0, 0)] if o0.variant == 'Some' else [])
+@model('re:^(std::option::)?Option::(into_iter)$')
+def _(I, ctx, o): return ListIt(list(o.fields))
+@model('re:^(std::result::)?Result::(iter|into_iter)$')
+def _(I, ctx, o):
+    o0 = deref(o); return ListIt([FieldRef(o0, 0)] if o0.variant == 'Ok' else [])
